@@ -126,6 +126,10 @@ pub struct DirSpec {
     pub parent: Option<usize>,
     /// mode 000
     pub locked: bool,
+    /// mode 0744 (only on directories that hold nothing but files): uid 65534 can list the
+    /// directory but neither stat nor open what is in it - every file in it is a faulty entry
+    #[serde(default)]
+    pub noexec: bool,
 }
 
 #[derive(Clone, Debug, Serialize, Deserialize)]
@@ -174,6 +178,15 @@ impl Tree {
         if self.name_pad > 230 {
             return Err("malformed tree: name too long");
         }
+        for (i, d) in self.dirs.iter().enumerate() {
+            if d.noexec
+                && (d.locked
+                    || self.dirs.iter().any(|c| c.parent == Some(i))
+                    || self.links.iter().any(|l| l.dir == Some(i) || l.target.map_or(false, |t| self.files[t].dir == Some(i))))
+            {
+                return Err("a list-only directory (mode 0744) may hold nothing but files that no link points to");
+            }
+        }
         Ok(())
     }
     fn name(&self, kind: char, i: usize) -> String {
@@ -218,9 +231,13 @@ impl Tree {
             Some(d) => !self.dirs[d].locked && self.dir_open(self.dirs[d].parent),
         }
     }
+    /// Mode 000, or inside a directory that can be listed but not searched.
+    fn file_blocked(&self, i: usize) -> bool {
+        self.files[i].locked || self.files[i].dir.map_or(false, |d| self.dirs[d].noexec)
+    }
     /// A file that can be reached and read.
     fn file_healthy(&self, i: usize) -> bool {
-        !self.files[i].locked && self.dir_open(self.files[i].dir)
+        !self.file_blocked(i) && self.dir_open(self.files[i].dir)
     }
 }
 
@@ -294,6 +311,8 @@ fn build_tree(tree: &Tree, base: &Path, keep: &Keep, apply_locks: bool) {
         for (i, d) in tree.dirs.iter().enumerate() {
             if keep.dirs[i] && d.locked {
                 chmod(&base.join(tree.dir_rel(i)), 0o000);
+            } else if keep.dirs[i] && d.noexec {
+                chmod(&base.join(tree.dir_rel(i)), 0o744);
             }
         }
     }
@@ -347,6 +366,9 @@ pub struct FaultCase {
     /// at the first match, the exit status rules stay the same
     #[serde(default)]
     pub stats: bool,
+    /// `--max-filesize 1M` (larger than every generated file: must change nothing)
+    #[serde(default)]
+    pub max_filesize: bool,
 }
 
 /// stdout without the `--stats` trailer (an empty line, `N matches`, ...).
@@ -414,7 +436,7 @@ fn expect_faults(c: &FaultCase) -> Result<Expect, &'static str> {
         if !t.dir_open(f.dir) {
             continue;
         }
-        if f.locked && !files_mode {
+        if t.file_blocked(i) && !files_mode {
             faulty.push(t.file_rel(i));
         } else {
             // --files lists a mode-000 file without opening it
@@ -631,6 +653,7 @@ pub fn check_faults(c: &FaultCase) -> Verdict {
         let rg = base_rg(&full, c.mode, c.threads, c.follow);
         let rg = if c.no_messages { rg.arg("--no-messages") } else { rg };
         let rg = if c.stats && !c.mode.is_files() { rg.arg("--stats") } else { rg };
+        let rg = if c.max_filesize { rg.args(["--max-filesize", "1M"]) } else { rg };
         rg.args(ex.roots.iter().cloned())
     });
     if out.timed_out {
@@ -748,6 +771,8 @@ pub fn check_faults(c: &FaultCase) -> Verdict {
     info.class_if(c.mode.is_quiet() && !ex.any && errors, "quiet_without_match_reports_error");
     info.class_if(c.follow, "follow");
     info.class_if(c.no_messages && errors, "no_messages_with_error");
+    info.class_if(t.dirs.iter().enumerate().any(|(i, d)| d.noexec && t.dir_open(d.parent) && t.files.iter().any(|f| f.dir == Some(i))) && !c.mode.is_files(), "fault_file_in_list_only_directory");
+    info.class_if(c.max_filesize, "max_filesize_given");
     info.class_if(stats, "stats");
     info.class_if(stats && c.mode.is_quiet() && ex.any && errors, "quiet_stats_match_wins_over_error");
     info.class_if(c.roots == Roots::TopLevel, "explicit_roots");
@@ -762,7 +787,7 @@ fn gen_small_tree(t: &mut Tape, mode: Mode, fault_density: u32, match_density: u
     let mut dirs = vec![];
     for i in 0..n_dirs {
         let p = t.below(i + 1);
-        dirs.push(DirSpec { parent: if p == 0 { None } else { Some(p - 1) }, locked: t.chance(fault_density, 6) });
+        dirs.push(DirSpec { parent: if p == 0 { None } else { Some(p - 1) }, locked: t.chance(fault_density, 6), noexec: false });
     }
     // no file at all now and then, so that "--files lists nothing" occurs
     let empty = if mode.is_files() { t.chance(1, 3) } else { match_density == 0 && t.chance(1, 6) };
@@ -792,6 +817,17 @@ fn gen_small_tree(t: &mut Tape, mode: Mode, fault_density: u32, match_density: u
         }
         tree.links.push(LinkSpec { dir, target });
     }
+    // a directory that can be listed but not searched (mode 0744), where the shape allows it
+    if fault_density > 0 {
+        for i in 0..tree.dirs.len() {
+            if t.chance(1, 2) {
+                tree.dirs[i].noexec = true;
+                if tree.valid().is_err() {
+                    tree.dirs[i].noexec = false;
+                }
+            }
+        }
+    }
     tree
 }
 
@@ -816,7 +852,8 @@ pub fn gen_faults(t: &mut Tape) -> FaultCase {
     // (drawn last: the rest of the case does not depend on it)
     let no_messages = t.chance(1, 5);
     let stats = if mode == Mode::Quiet { t.bool() } else { t.chance(1, 5) };
-    FaultCase { tree, roots, extras, extras_first, follow, mode, threads, no_messages, stats }
+    let max_filesize = t.chance(1, 3);
+    FaultCase { tree, roots, extras, extras_first, follow, mode, threads, no_messages, stats, max_filesize }
 }
 
 // ------------------------------------------------------------------ args ---
@@ -1315,7 +1352,7 @@ pub fn gen_pipe(t: &mut Tape, all_k_limit: u32) -> PipeCase {
         let n_dirs = t.small(2);
         for i in 0..n_dirs {
             let p = t.below(i + 1);
-            tree.dirs.push(DirSpec { parent: if p == 0 { None } else { Some(p - 1) }, locked: false });
+            tree.dirs.push(DirSpec { parent: if p == 0 { None } else { Some(p - 1) }, locked: false, noexec: false });
         }
         let n_files = 1 + t.small(3);
         let nothing = t.chance(1, 8);
@@ -1335,7 +1372,7 @@ pub fn gen_pipe(t: &mut Tape, all_k_limit: u32) -> PipeCase {
         let n_dirs = t.small(2);
         for i in 0..n_dirs {
             let p = t.below(i + 1);
-            tree.dirs.push(DirSpec { parent: if p == 0 { None } else { Some(p - 1) }, locked: false });
+            tree.dirs.push(DirSpec { parent: if p == 0 { None } else { Some(p - 1) }, locked: false, noexec: false });
         }
         let n_files = 1 + t.small(3);
         for i in 0..n_files {
@@ -1364,7 +1401,7 @@ pub fn gen_pipe(t: &mut Tape, all_k_limit: u32) -> PipeCase {
         let n_dirs = 1 + t.below(3);
         for i in 0..n_dirs {
             let p = t.below(i + 1);
-            tree.dirs.push(DirSpec { parent: if p == 0 { None } else { Some(p - 1) }, locked: false });
+            tree.dirs.push(DirSpec { parent: if p == 0 { None } else { Some(p - 1) }, locked: false, noexec: false });
         }
         let n_files = if size == 3 {
             t.range(2, 8)
